@@ -5,8 +5,8 @@ CONSTANTS
   Biases = {0, 3}
   MaxObjs = 3
   MaxDepth = 3
-  MaxLinks = 2
-  MaxOps = 10
+  MaxLinks = 1
+  MaxOps = 9
 VIEW View
 INVARIANTS TypeOK LinksPointBack NoSharedTwins Sound CaseDump
 CHECK_DEADLOCK FALSE
